@@ -73,6 +73,7 @@ type Exec struct {
 	labelCount   map[string]int
 	inputs       []inputVar
 	inlineMax    int
+	havocked     []Val // values stored by havocTarget during the call being processed
 	funcsSeen    map[string]bool
 	specDecls    map[string]bool
 	entryVars    map[string]Val
@@ -195,7 +196,9 @@ func (ob *Obligation) Query() string {
 			if g := sc.guards[li]; g != "" && !anc[g] {
 				continue
 			}
-			hit := len(sc.lineSyms[li]) == 0
+			// reachability probes (Expect == "sat") must see EVERY assumption made on the way: a contradiction among
+			// assumptions that share no symbol with the path condition is exactly what they are there to find
+			hit := len(sc.lineSyms[li]) == 0 || ob.Expect == "sat"
 			for _, d := range sc.lineSyms[li] {
 				if need[d] {
 					hit = true
